@@ -333,6 +333,7 @@ theorem exec_ksub {s : St} (hi : Inv s) (op : Op) (hok : op.ok (abs s) = true) :
     simp only [Op.ok, Bool.and_eq_true, decide_eq_true_eq] at hok
     exact ksub_addFresh _ hok.1 _ rfl
   | deleteNode n c => exact ksub_deleteKid _ s n c
+  | deleteNodesWithTag n t => exact ksub_deleteKidsWithTag _ s n t
   | setNodes n ks =>
     simp only [Op.ok, Bool.and_eq_true, decide_eq_true_eq, List.all_eq_true] at hok
     exact ksub_setKidsOp _ s n ks fun c hc => by simpa using hok.2 c hc
